@@ -629,13 +629,27 @@ def closure_env_subst(cb, closure_term, args):
     return env, caps
 
 
-def expand(t, fx, depth=3, seen=()):
-    """inline local callees (functions and closures) by return-term substitution"""
+def expand(t, fx, depth=3, seen=(), _memo=None):
+    """inline local callees (functions and closures) by return-term substitution.  Terms are DAGs with heavy sharing (the same read
+    appears under many parents): sub-results are memoised per call, by object identity, or the walk is exponential (seed C16-t kept
+    one rule busy for ten minutes)"""
     if not isinstance(t, tuple) or depth < 0:
         return t
+    if _memo is None:
+        _memo = {}
+    key_ = (id(t), depth, seen)
+    hit = _memo.get(key_)
+    if hit is not None and hit[0] is t:
+        return hit[1]
+    out_ = _expand(t, fx, depth, seen, _memo)
+    _memo[key_] = (t, out_)
+    return out_
+
+
+def _expand(t, fx, depth, seen, _memo):
     k = t[0]
     if k == 'call':
-        args = tuple(expand(a, fx, depth, seen) for a in t[2])
+        args = tuple(expand(a, fx, depth, seen, _memo) for a in t[2])
         callee = t[1]
         if callee.startswith('closure:'):
             cpath = callee[len('closure:'):]
@@ -647,7 +661,7 @@ def expand(t, fx, depth=3, seen=()):
                 for i, a in enumerate(args[:-1]):
                     env[2 + i] = a
                 r = subst_closure(r, env, cl)
-                return expand(r, fx, depth - 1, seen + (cpath,))
+                return expand(r, fx, depth - 1, seen + (cpath,), _memo)
             return ('call', callee, args, t[3])
         bs = fx.bodies_named(callee)
         if len(bs) == 1 and depth > 0 and callee not in seen:
@@ -655,23 +669,23 @@ def expand(t, fx, depth=3, seen=()):
             r = get_resolver(cb).ok_ret()
             env = {i + 1: a for i, a in enumerate(args)}
             r = subst(r, env)
-            return expand(r, fx, depth - 1, seen + (callee,))
+            return expand(r, fx, depth - 1, seen + (callee,), _memo)
         return simplify_call(callee, args, t[3], None)
     if k == 'agg':
-        return ('agg', t[1], t[2], tuple((f, expand(x, fx, depth, seen)) for f, x in t[3]))
+        return ('agg', t[1], t[2], tuple((f, expand(x, fx, depth, seen, _memo)) for f, x in t[3]))
     if k in ('tuple', 'array'):
-        return (k, tuple(expand(x, fx, depth, seen) for x in t[1]))
+        return (k, tuple(expand(x, fx, depth, seen, _memo) for x in t[1]))
     if k == 'any':
-        return mk_any([expand(x, fx, depth, seen) for x in t[1]])
+        return mk_any([expand(x, fx, depth, seen, _memo) for x in t[1]])
     if k == 'field':
-        return proj_field(expand(t[1], fx, depth, seen), t[2])
+        return proj_field(expand(t[1], fx, depth, seen, _memo), t[2])
     if k == 'variant':
-        return proj_variant(expand(t[1], fx, depth, seen), t[2])
+        return proj_variant(expand(t[1], fx, depth, seen, _memo), t[2])
     if k in ('try',):
-        return ('try', expand(t[1], fx, depth, seen))
+        return ('try', expand(t[1], fx, depth, seen, _memo))
     if k == 'closure':
         return t
-    return tuple(expand(x, fx, depth, seen) if isinstance(x, tuple) else x for x in t)
+    return tuple(expand(x, fx, depth, seen, _memo) if isinstance(x, tuple) else x for x in t)
 
 
 def subst_closure(r, env, closure_term):
